@@ -164,6 +164,9 @@ func main() {
 		// one execution in a brand-new process (C08 histories): worker fresh <cfg> <init> <program>
 		cfg, in := pxConfigByName(os.Args[2]), pxInitByID(os.Args[3])
 		ref := refRun(os.Args[4], in)
+		if ref.Steps < 20 {
+			ref.Steps = 20
+		}
 		out := pxExec(cfg, os.Args[4], in, &ref, false, nil, nil)
 		json.NewEncoder(os.Stdout).Encode(freshResult{Digest: digest(&out), Class: out.Class, Cycles: out.Cycles})
 	case "px":
